@@ -269,6 +269,11 @@ func verifySignature(p7 *PKCS7, signer signerInfo) error {
 
 func getSignatureAlgorithmByHash(hash Hash, oid asn1.ObjectIdentifier) SignatureAlgorithm {
 	switch hash {
+	case SHA1:
+		switch {
+		case oid.Equal(oidSignatureSHA1WithRSA), oid.Equal(oidEncryptionAlgorithmRSA):
+			return SHA1WithRSA
+		}
 	case SM3:
 		switch {
 		case oid.Equal(oidSM3withSM2):
